@@ -83,19 +83,23 @@ theorem addH_ok {s : Option LP} {m : Nat} {o : Option LP} (hok : addH s m = .ok 
 /-! ### the margin-health gate only ever refuses -/
 theorem gate_ok {hc : Health} {r : Except Err (Option LP)} {o : Option LP} (h : gate hc r = .ok o) : r = .ok o := by
   cases r with
-  | error e => cases h
-  | ok v => cases hc <;> simp [gate] at h <;> rw [h]
+  | error e => simp only [gate] at h; split at h <;> cases h
+  | ok v => cases hc <;> simp [gate, gateAfter] at h <;> rw [h]
 
 theorem gate_err_bal {hc : Health} {r : Except Err (Option LP)} (h : gate hc r = .error .bal) : r = .error .bal := by
   cases r with
-  | error e => simpa [gate] using h
-  | ok v => cases hc <;> simp [gate] at h
+  | error e =>
+    simp only [gate] at h
+    split at h
+    · cases h
+    · exact h
+  | ok v => cases hc <;> simp [gate, gateAfter] at h
 
 theorem gate_not_pass {hc : Health} {r : Except Err (Option LP)} (hne : hc ≠ .pass) : ∀ o, gate hc r ≠ .ok o := by
   intro o h
   cases r with
-  | error e => cases h
-  | ok v => cases hc <;> simp [gate] at h <;> exact hne rfl
+  | error e => simp only [gate] at h; split at h <;> cases h
+  | ok v => cases hc <;> simp [gate, gateAfter] at h <;> exact hne rfl
 
 /-! ### the transaction wrapper -/
 theorem commit_ok {s : St} {k : String} {r : Except Err (Option LP)} {s' : St}
